@@ -384,7 +384,7 @@ def _dump_graph(f, var_of_identifier=False):
     return out
 
 
-def _names(f):
+def _label_names(f):
     d = {}
     for name, key, label in f.get_names_with_label():
         d[(str(name), str(label))] = _enc_key(key)
@@ -421,7 +421,7 @@ def pipeline_dump(text, gopts=None, with_nnf=True):
     cnf = CNF.create_from(dag)
     res = {"src": _dump_graph(lf), "dag": _dump_graph(dag), "cnf": parse_dimacs(cnf.to_dimacs())}
     res["cnf_atomcount"] = cnf.atomcount
-    ns, nd, nc = _names(lf), _names(dag), _names(cnf)
+    ns, nd, nc = _label_names(lf), _label_names(dag), _label_names(cnf)
     cons = []
     for c in dag.constraints():
         if isinstance(c, ConstraintAD) and c.is_nontrivial():
@@ -438,7 +438,7 @@ def pipeline_dump(text, gopts=None, with_nnf=True):
         nnf = DDNNF.create_from(cnf)
         res["nnf"] = _dump_graph(nnf, var_of_identifier=True)
         res["hasnnf"] = 1
-        nn = _names(nnf)
+        nn = _label_names(nnf)
         wn = nnf.get_weights()
         # weights of the circuit's atoms must be the CNF weights of the variables they stand for
         for key, node, t in nnf:
@@ -634,3 +634,29 @@ def arith_cases(cases):
             r["error"] = info["error"]
         out.append(r)
     return {"results": out}
+
+
+# ------------------------------------------------------------------ C25 export
+def ground_export(text, break_cycles=False, compact=False, fmt="pl"):
+    """What `problog ground` does (tasks/ground.py main), then re-evaluate the exported text."""
+    from problog.program import PrologString, ExtendedPrologFactory
+    from problog.parser import DefaultPrologParser
+    from problog.formula import LogicFormula, LogicDAG
+    from problog.cnf_formula import CNF
+    target = LogicDAG if (break_cycles or fmt == "cnf") else LogicFormula
+    gp = target.createFrom(PrologString(text, parser=DefaultPrologParser(ExtendedPrologFactory())),
+                           label_all=True, avoid_name_clash=not compact, keep_order=True, keep_all=False,
+                           keep_duplicates=False, hide_builtins=False, propagate_evidence=False, propagate_weights=None)
+    if fmt == "cnf":
+        cnf = CNF.createFrom(gp)
+        txt = cnf.to_dimacs()
+        internal = []
+        for cl in cnf.clauses:
+            if cl and cl[0] == "c":
+                continue
+            internal.append([int(x) for x in cl if isinstance(x, int) and not isinstance(x, bool)])
+        return {"dimacs": parse_dimacs(txt), "internal": {"nvars": cnf.atomcount, "clauses": internal}}
+    out = gp.to_prolog()
+    from problog import get_evaluatable
+    res = get_evaluatable().create_from(PrologString(out)).evaluate()
+    return {"answers": {str(k): float(v) for k, v in res.items()}, "exported": out}
